@@ -103,12 +103,13 @@ theorem pipelines_independent_of_others (progs progs' : Nat → List Instr)
 /-- the regenerated fact the positive theorems rest on: `readHeader` returns copies -/
 theorem header_results_are_copies : Kit.Generated.C08.headerRet = retFixed := by decide
 
-/-- every function of scheme.go that Gets from `BufPool` Puts by a `defer` placed directly after
-the Get (all paths, after the last use), never Puts otherwise, returns no slice of the buffer and
+/-- every function of scheme.go that Gets from `BufPool` Puts by a `defer` (all paths) with no
+statement touching the buffer scheduled after it (no defer registered before it, nothing behind it
+in its closure), never Puts otherwise, returns no slice of the buffer and
 stores none where it outlives the call; `Decrypt` uses the results in the order the model assumes -/
 theorem pool_discipline_facts :
     (Kit.Generated.C08.poolUses.all fun u =>
-      u.putDeferred && u.putExplicit == 0 && u.retains.isEmpty && !u.results.contains .alias) = true ∧
+      u.putDeferred && u.putExplicit == 0 && u.afterPut.isEmpty && u.retains.isEmpty && !u.results.contains .alias) = true ∧
     Kit.Generated.C08.poolUses.map (·.func) = ["processSegments", "readHeader"] ∧
     Kit.Generated.C08.decryptUses =
       ["verifhook.Point()", "json.Unmarshal(manifest)", "opts.UnwrapKeyFn()",
@@ -137,6 +138,29 @@ theorem enc_pipelines_independent (pipes : Nat → PipeSpec) {s : State} (h : Re
     (∀ t, (s.thr t).prog = [] → (s.thr t).log = soloLog ((pipes t).prog Kit.Generated.C08.headerRet)) :=
   ⟨(ownership_inv _ (fun t => pipeSpec_wf (pipes t)) h).1,
    fun t hf => pipelines_independent_final _ (fun t => pipeSpec_wf (pipes t)) h t hf⟩
+
+/-- **`Put` is the last access.** In a program that keeps the discipline, no instruction after
+`put h` mentions `h` — a deferred statement that touches the buffer and runs after the deferred Put
+breaks `wf` (and with it every hypothesis of the theorems above). -/
+theorem put_is_last_access (g : Ghost) (ok : GhostOk g) (h : Nat) (rest : List Instr)
+    (hw : wfFrom g (.put h :: rest) = true) : ∀ i ∈ rest, h ∉ i.handles := by
+  obtain ⟨g', hg, hw'⟩ := wfFrom_cons hw
+  have hs := gstep_shape hg
+  cases hs with
+  | put _ hm =>
+    exact no_mention_once_dropped (gshape_ok (GShape.put h hm) ok) (ok.lt h hm)
+      (fun hm' => (ok.nodup.mem_erase_iff.mp hm').1 rfl) rest hw'
+
+/-- **Witness for a clear that runs after the Put** (`defer clear(*buf)` registered before
+`defer BufPool.Put(buf)` in `processSegments`): `wf` fails; stream 1 takes the buffer stream 0 has
+Put and writes `[9,9]`; stream 0's late clear wipes it (an access to an array owned by stream 1);
+stream 1 reads back `[0,0]` — alone it reads `[9,9]`. -/
+theorem use_after_put_witness :
+    wf (afterPutWitnessProgs 0) = false ∧ wf (processSegmentsProg true 0 segmentSize [1, 2]) = true ∧
+    (let s := runSched (init afterPutWitnessProgs) (afterPutWitnessSched.take 8)
+     s.own ((s.thr 0).tbl 0) = .owned 1 ∧ accessOk s 0 = false) ∧
+    ((runSched (init afterPutWitnessProgs) afterPutWitnessSched).thr 1).log = [[0, 0]] ∧
+    soloLog (afterPutWitnessProgs 1) = [[9, 9]] := by decide +kernel
 
 /-! ### non-vacuity and the witness for the code as found -/
 
@@ -230,13 +254,16 @@ theorem shared_var_immutable {α : Type} (v : SharedVar α) (hw : v.writes = [])
     | assign site x => simp [varStep, hw] at h
 
 /-- **`cron.standardParser` is immutable**: the source contains no assignment to it, none through
-it, its address is never taken, and every `Parser` method has a value receiver — so every
+it, its address is never taken, every `Parser` method has a value receiver and every field of
+`Parser` is of value type (factgen aborts on a pointer/slice/map/… field, which all copies of the
+value would share) — so every
 `ParseStandard` works on a copy of the initial value, whatever else runs. -/
 theorem standard_parser_immutable :
     Kit.Generated.C08.standardParserWrites = [] ∧ Kit.Generated.C08.parserValueReceivers = true ∧
+    Kit.Generated.C08.parserValueFields = ["options"] ∧
     ∀ {α : Type} (p0 : α) (ops : List (VarOp α)) (v' : SharedVar α),
       varRun ⟨p0, Kit.Generated.C08.standardParserWrites⟩ ops = some v' → v'.val = p0 := by
-  refine ⟨by decide, by decide, ?_⟩
+  refine ⟨by decide, by decide, by decide, ?_⟩
   intro α p0 ops v' h
   rw [shared_var_immutable ⟨p0, Kit.Generated.C08.standardParserWrites⟩ rfl ops v' h]
 
